@@ -148,6 +148,8 @@ Definition rule_is_ascii (r : cb_rule) : bool :=
   (match r_selector r with None => true | Some s => all_ascii s end)
   && all_ascii (print_regex (r_url r)) && opt_all_ascii (r_if r) && opt_all_ascii (r_unless r).
 
+Definition is_nil {A} (l : list A) : bool := match l with [] => true | _ => false end.
+
 Definition non_empty (v : list str) : option (list str) :=
   match v with [] => None | _ => Some v end.
 
@@ -190,9 +192,8 @@ Definition sch_https : list item := lits (bs "https://").
 Definition sch_ws : list item := lits (bs "ws") ++ s_opt ++ lits (bs "://").  (* wss?:// *)
 Definition sch_both : list item := lits (bs "http") ++ s_opt ++ lits (bs "://").
 
-Definition UNREACHABLE : string := "unreachable: Invalid scheme information".
-
-(* the `url_filter` match of try_from *)
+(* the `url_filter` match of try_from; a rule that has lost all three scheme bits
+   (`|ws://$~websocket`) is an error since fix 26d3d76 (it used to hit unreachable!()) *)
 Definition url_filter_ast (nf : netf) : res (conv regex) :=
   let m := nf_mask nf in
   let ra := has m M_IS_RIGHT_ANCHOR in
@@ -207,14 +208,22 @@ Definition url_filter_ast (nf : netf) : res (conv regex) :=
       else if has m M_FROM_HTTP then Ok (COk (mkRx true (sch_http ++ any_star ++ part_items part) ra))
       else if has m M_FROM_HTTPS then Ok (COk (mkRx true (sch_https ++ any_star ++ part_items part) ra))
       else if has m M_FROM_WEBSOCKET then Ok (COk (mkRx true (sch_ws ++ any_star ++ part_items part) ra))
-      else Panic UNREACHABLE
+      else Ok (CErr ENoSupportedNetworkOptions)
   | FEmpty, Some h => Ok (COk (mkRx true (host_prefix_items ++ lits h) false))
   | FEmpty, None =>
       if has m (N.lor M_FROM_HTTP M_FROM_HTTPS) then Ok (COk (mkRx true sch_both false))
       else if has m M_FROM_HTTP then Ok (COk (mkRx true sch_http false))
       else if has m M_FROM_HTTPS then Ok (COk (mkRx true sch_https false))
       else if has m M_FROM_WEBSOCKET then Ok (COk (mkRx true sch_ws false))
-      else Panic UNREACHABLE
+      else Ok (CErr ENoSupportedNetworkOptions)
+  end.
+
+(* `if url_filter.is_empty() { ".*" }` (fix 26d3d76): a pattern made of wildcards and separators
+   only leaves nothing; the empty text is replaced by match-everything *)
+Definition url_filter_final (nf : netf) : res (conv regex) :=
+  match url_filter_ast nf with
+  | Ok (COk r) => Ok (COk (if is_nil (print_regex r) then match_all else r))
+  | x => x
   end.
 
 Definition load_type (m : N) : list N :=
@@ -299,7 +308,7 @@ Definition convert_network (norm : str -> option str) (nf : netf) : res (conv (l
       else if has m M_IS_REMOVEPARAM then Ok (CErr ERemoveparam)
       else
         let load := load_type m in
-        conv_bind (url_filter_ast nf) (fun url =>
+        conv_bind (url_filter_final nf) (fun url =>
         conv_bind (if nf_has_dom nf || nf_has_notdom nf then reparse_domains norm raw
                    else Ok (COk (None, None))) (fun '(ifd, unl) =>
         match ifd, unl with
@@ -379,8 +388,6 @@ Fixpoint collect_locations (idna : str -> option str) (l : list (loc_type * str)
       | LNotHostname => (hs, match idna loc with Some e => e :: nhs | None => nhs end, unsup)
       end
   end.
-
-Definition is_nil {A} (l : list A) : bool := match l with [] => true | _ => false end.
 
 (* TryFrom<CosmeticFilter> for CbRule *)
 Definition convert_cosmetic (idna : str -> option str) (cf : cosf) : res (conv cb_rule) :=
@@ -548,24 +555,6 @@ Definition cos_ok (cf : cosf) : bool :=            (* cosmetic raw lines contain
 (* AbstractNetworkFilter::parse looks for the options after the LAST '$' *)
 Definition parser_options (line : str) : option str :=
   match rfind_byte DOLLAR line with Some i => Some (drop (S i) line) | None => None end.
-
-(* carve-out classes (known findings) *)
-(* scheme information lost: `|ws://$~websocket` leaves none of the three scheme bits *)
-Definition scheme_ok (m : N) : bool :=
-  has m M_FROM_HTTP || has m M_FROM_HTTPS || has m M_FROM_WEBSOCKET.
-Definition needs_scheme (nf : netf) : bool :=
-  match nf_filter nf, nf_hostname nf with
-  | FSimple _, None => negb (has (nf_mask nf) M_IS_LEFT_ANCHOR)
-  | FEmpty, None => true
-  | _, _ => false
-  end.
-Definition lost_scheme_class (nf : netf) : bool := needs_scheme nf && negb (scheme_ok (nf_mask nf)).
-(* the pattern is only a separator: the emitted url-filter is the empty text *)
-Definition empty_filter_class (nf : netf) : bool :=
-  match url_filter_ast nf with
-  | Ok (COk r) => is_nil (print_regex r)
-  | _ => false
-  end.
 
 (* ------------------------------------------------------------------ correspondence helpers *)
 (* what the harness sees of a rule (serde_json of CbRule) *)
